@@ -86,10 +86,18 @@ def standard_check(prop, tier, seed, fingerprint, t0, *, archs, worker_init, bui
             dres, derr = batch.run_pool(djobs, det_job, worker_init, (root,), wall_per_job=900)
             errors.extend(derr)
             n = 0
-            for errs, cnt in dres:
-                errors.extend(errs)
-                n += cnt
-            det = {"quadruples": n, "all_equal": not derr and all(not e for e, c in dres),
+            det_viol = []
+            for item in dres:
+                errors.extend(item[0])
+                n += item[1]
+                if len(item) > 2:
+                    det_viol.extend(item[2])
+            for v in det_viol[:2]:
+                path = batch.write_replay(v, fingerprint)
+                print("violation class=%s site=%s: %s" % (v["class"], v.get("site"), v["detail"]))
+                print("VIOLATION property=%s replay=%s" % (prop, path), flush=True)
+                reported.append(v)
+            det = {"quadruples": n, "all_equal": not derr and all(not item[0] for item in dres),
                    "what": "same seed twice in-process, once via Replay(recorded choices), once in a fresh "
                            "interpreter under another PYTHONHASHSEED: event-log sha1 must be identical"}
             print("determinism self-test %.1f s: %d quadruples, all equal: %s" % (batch.real_now() - td, n, det["all_equal"]), flush=True)
